@@ -261,8 +261,8 @@ def go_test(pkg, run, race=False, timeout=1200, extra_env=None, args=None):
 
 def canon_model(line):
     """Apply the hash parameters: the driver prints md5of:<hex> / sha12of:<hex>; the checker hashes."""
-    line = re.sub(r'md5of:([0-9a-f]*)', lambda m: hashlib.md5(bytes.fromhex(m.group(1))).hexdigest(), line)
-    line = re.sub(r'sha12of:([0-9a-f]*)', lambda m: hashlib.sha256(bytes.fromhex(m.group(1))).hexdigest()[:12], line)
+    line = re.sub(r'md5of:(-|[0-9a-f]*)', lambda m: hashlib.md5(bytes.fromhex(m.group(1).replace('-', ''))).hexdigest(), line)
+    line = re.sub(r'sha12of:(-|[0-9a-f]*)', lambda m: hashlib.sha256(bytes.fromhex(m.group(1).replace('-', ''))).hexdigest()[:12], line)
     return line
 
 
